@@ -746,7 +746,7 @@ add({"name": "extract_files_write_body", "file": "dfs/cmd_extract_files.cc",
      "dropped": ["diagnostic texts", "the visitor lambda (extracted separately: extract_files_visitor)"]})
 
 # ---- track.cc (C06 iii, C07): check_track_is_supported ---------------------------------------------------------------
-ERR_SS = (r"ss << [^;]*;\s*error = ss\.str\(\);", "g_diag++;  /* diagnostic text dropped */")
+ERR_SS = (r"ss << [^;]*;\s*error = ss\.str\(\);", "g_diag++; g_tc_witness = si_;  /* diagnostic text dropped; which sector is refused is kept */")
 add({"name": "check_track_is_supported", "file": "dfs/track.cc",
      "anchor": r"bool check_track_is_supported\(const std::vector<Sector> track_sectors,\s*unsigned int track,\s*unsigned int side,\s*unsigned int sector_bytes,\s*bool verbose,\s*std::string& error\)",
      "sig": "static bool check_track_is_supported(const struct TrackSector *track_sectors, size_t track_sectors_n, unsigned int track, unsigned int side, unsigned int sector_bytes)",
@@ -861,7 +861,8 @@ add({"name": "gz_inflate_loop", "file": "dfs/img_gzfile.cc",
                (r"\binflate\(&stream, Z_NO_FLUSH\)", "gz_inflate(&stream)", 1),
                (r"\bfwrite\(", "gz_fwrite(", 1),
                (r"check_zlib_error_code\(zerr\);", "{ check_zlib_error_code(zerr); if (g_exc) return; }", 1),
-               (r"(while \(zerr != Z_STREAM_END\))", r"\1 GZ_OUTER_CONTRACT", 1),
+               (r"\bfeof\(f\)", "gz_feof(f)", ">=0"),
+               (r"while \(((?:[^()]|\([^()]*\))*)\)(?=\s*\{\s*/\* errno = 0 \*/)", r"while (\1) GZ_OUTER_CONTRACT", 1),
                (r"GZ_OUTER_CONTRACT\s*\{", "GZ_OUTER_CONTRACT { GZ_OUTER_GHOST", 1),
                (r"\bdo\b(\s*\{\s*stream\.next_out)", r"do GZ_INNER_CONTRACT\1", 1)],
      "dropped": ["static_asserts on buffer sizes"]})
@@ -898,7 +899,7 @@ add({"name": "case_insensitive_equal", "file": "dfs/stringutil.cc", "anchor": r"
 add({"name": "CatalogEntry_has_name", "file": "dfs/dfs_catalog.cc", "anchor": r"bool CatalogEntry::has_name\(const ParsedFileName& wanted\) const",
      "sig": "static bool CatalogEntry_has_name(const struct CatalogEntry *self, const struct ParsedFileNameM *wanted)",
      "rules": [(r"#if VERBOSE_FOR_TESTS.*?#endif", "/* test-only diagnostics dropped */", ">=0"),
-               (r"\bwanted\.dir\b", "wanted->dir", ">=1"), (r"\bdirectory\(\)", "CatalogEntry_directory(self)", ">=1"),
+               (r"\bwanted\.dir\b", "wanted->dir", ">=1"), (r"\bdirectory\(\)", "CatalogEntry_directory(self)", ">=0"), (r"\braw_name_\b", "self->raw_name_", ">=0"),
                (r"\btoupper\(", "verif_toupper(", ">=0"), (r"\btolower\(", "verif_tolower(", ">=0"),
                (r"static_cast<(unsigned char|char|int)>\(", r"(\1)(", ">=0"),
                (r"const std::string trimmed_name\(stringutil::rtrim\(name\(\)\)\);", "const struct cstr trimmed_name = cstr_rtrim(CatalogEntry_name(self));", 1),
@@ -960,7 +961,7 @@ add({"name": "SurfaceSelector_parse", "file": DS,
      "anchor": r"std::optional<SurfaceSelector> SurfaceSelector::parse\(const std::string& s, size_t\* end, std::string& error\)",
      "sig": "static struct opt_surface SurfaceSelector_parse(const struct argstr *s, size_t *end)",
      "rules": [(r"\btry\b", "/* guarded block: handlers below */", 1),
-               (r"n = std::stol\(s, end, 10\);", "n = stol_model(s, end); if (g_exc) goto handlers_;", 1),
+               (r"n = std::stol\(s, end, (\w+)\);", r"n = stol_model(s, end, \1); if (g_exc) goto handlers_;", 1),
                (r"d = coerce\(n\);", "d = SurfaceSelector_coerce_long(n); if (g_exc) goto handlers_;", 1),
                (r"catch \(BadSurfaceSelector& \w+\)", "if (0) handlers_: if (exc_caught(EXC_BadSurfaceSelector))", 1),
                (r"catch \(std::(\w+)& \w+\)", r"else if (exc_caught(EXC_std_\1))", ">=1"),
@@ -975,7 +976,7 @@ add({"name": "dump_get_arg", "file": "dfs/cmd_dump.cc",
      "anchor": r"std::optional<long int> get_arg\(const std::string& which_arg,\s*const std::string& the_arg,\s*const long int upper_limit\)",
      "sig": "static struct opt_long dump_get_arg(const struct argstr *the_arg, const long int upper_limit)",
      "rules": [(r"\btry\b", "/* guarded block: handler below */", 1),
-               (r"n = std::stol\(the_arg, &end, 10\);", "n = stol_model(the_arg, &end); if (g_exc) { struct opt_long none_; none_.has = 0; none_.val = 0; return none_; } if (g_stol_out_of_range) goto out_of_range_;", 1),
+               (r"n = std::stol\(the_arg, &end, (\w+)\);", r"n = stol_model(the_arg, &end, \1); if (g_exc) { struct opt_long none_; none_.has = 0; none_.val = 0; return none_; } if (g_stol_out_of_range) goto out_of_range_;", 1),
                (r"catch \(std::out_of_range& e\)\s*\{\s*\};", "out_of_range_: ;  /* the out_of_range handler: report as for n > upper_limit */", 1),
                (r"the_arg\.size\(\)", "the_arg->n", ">=1"),
                (r"std::cerr << which_arg << \" \" << the_arg[^;]*;", "g_diag++;  /* diagnostic text dropped */", ">=1"),
@@ -1163,6 +1164,15 @@ add({"name": "Volume_ctor", "file": "dfs/dfs_volume.cc",
                (r"catalog_location_\(([^()]*)\),", r"self->catalog_location_ = (\1);", 1)],
      "dropped": ["root_(std::make_unique<Catalog>(...))"]})
 
+add({"name": "VolumeAccess_origin", "file": "dfs/dfs_volume.h", "anchor": r"unsigned long origin\(\) const",
+     "sig": "static unsigned long VolumeAccess_origin(const struct VolumeAccess *self)", "rules": [(r"\borigin_\b", "self->origin_", 1)]})
+add({"name": "Volume_volume_data_origin", "file": "dfs/dfs_volume.h", "anchor": r"unsigned long volume_data_origin\(\) const",
+     "sig": "static unsigned long Volume_volume_data_origin(const struct VolumeM *self)", "rules": [(r"volume_tracks_\.origin\(\)", "VolumeAccess_origin(&self->volume_tracks_)", 1)]})
+# Volume::map_sectors (C14: sector-map / extract-unused label the catalogue at the catalogue's place and the files in the data area)
+add({"name": "Volume_map_sectors", "file": "dfs/dfs_volume.cc", "anchor": r"void Volume::map_sectors\(const DFS::VolumeSelector& vol,\s*DFS::SectorMap\* out\) const",
+     "sig": "static void Volume_map_sectors(const struct VolumeM *self)",
+     "rules": [(r"root_->map_sectors\(vol,\s*([^;]*),\s*out\);", r"catalog_map_sectors_v(self, \1);", 1),
+               (r"\bcatalog_location_\b", "self->catalog_location_", ">=0"), (r"\bvolume_data_origin\(\)", "Volume_volume_data_origin(self)", ">=0")]})
 add({"name": "init_volumes_opus_vol", "file": "dfs/dfs_volume.cc",
      "anchor": r"auto vol = std::make_unique<DFS::Volume>\(fmt,\s*vol_loc", "region_end": r"result\.insert\(std::make_pair\(vol_loc\.volume\(\)",
      "sig": "static void init_volumes_opus_vol(struct VolumeM *vol, int fmt, const struct VolumeLocation *vol_loc, struct DataAccess *media_)",
@@ -1271,6 +1281,9 @@ add({"name": "hfe_lut_call", "file": "dfs/img_hfe.cc", "anchor": r"std::vector<P
      "sig": "static void hfe_lut_call(struct HfeFileL *self)",
      "pre": "#define header_ (self->header_)\n", "post": "#undef header_\n",
      "rules": [(r"std::vector<PicTrack> track_lut = read_track_offset_lut\(file_\.get\(\),\s*([^;]*)\);", r"LUT_CALL(self->file_, \1);", 1)]})
+add({"name": "hfe_encoding_of_track", "file": "dfs/img_hfe.cc", "anchor": r"unsigned char HfeFile::encoding_of_track\(int side, int track\) const",
+     "sig": "static unsigned char hfe_encoding_of_track(const struct HfeFileL *self, int side, int track)",
+     "pre": "#define header_ (self->header_)\n", "post": "#undef header_\n", "rules": []})
 add({"name": "HfeCopyState", "file": "dfs/img_hfe.cc", "anchor": r"struct HfeCopyState\s*\{", "region_end": r"\n\s*\nvoid copy_hfe",
      "toplevel": True, "sig": "", "optional": True, "fallback": "struct HfeCopyState { int got_bits; byte out; byte this_op; };",
      "rules": [(r"\b(int|byte) (\w+) = 0;", r"\1 \2;   /* = 0: see the initialiser in hfe_side_blocks */", 3)]})
@@ -1334,7 +1347,10 @@ add({"name": "HxcAdapter_read_block", "file": "dfs/img_hxcmfm.cc",
      "rules": [(NULLOPT_SB[0], NULLOPT_SB[1], 2), (r"geom_\.total_sectors\(\)", "Geometry_total_sectors(&geom_)", 1),
                (r"Track::SectorAddress addr;", "struct SectorAddress addr;", 1), (r"static_cast<unsigned char>\(", "(unsigned char)(", 3),
                (r"for \(const Sector& sect : sectors_\)", "for (size_t si_ = 0; si_ < self->sectors_n; ++si_) ADAPTER_LOOP_CONTRACT", 1),
-               (r"sect\.address == addr", "SectorAddress_eq(&self->sectors_[si_].address, &addr)", 1),
+               (r"sect\.address == addr", "SectorAddress_eq(&self->sectors_[si_].address, &addr)", ">=0"),
+               (r"sect\.address < addr", "SectorAddress_lt(&self->sectors_[si_].address, &addr)", ">=0"),
+               (r"addr < sect\.address", "SectorAddress_lt(&addr, &self->sectors_[si_].address)", ">=0"),
+               (r"sect\.address != addr", "(!SectorAddress_eq(&self->sectors_[si_].address, &addr))", ">=0"),
                (r"DFS::SectorBuffer buf;", "SectorBuffer buf;", 1), (COPY256[0], COPY256[1], 1), (RET_BUF[0], RET_BUF[1], 1)]})
 add({"name": "HfeAdapter_find_sector", "file": "dfs/img_hfe.cc",
      "anchor": r"std::vector<Sector>::const_iterator find_sector\(const SectorAddress& want\) const",
